@@ -32,7 +32,9 @@ RULE = ('a case = one set of 2-6 chemicals (0-2 of them without functional group
         'near-vertices (1-x_i in 1e-12..1e-6), trace compositions, random interior points, T in [250, 450] K, as float '
         'ndarray (same array reused over several calls), as list, through .f(x, T, *args), and for permuted chemical tuples '
         '(all permutations up to 4 chemicals in the thorough tier, sampled otherwise) at the correspondingly permuted '
-        'compositions; Gibbs-Duhem probes by central differences along random simplex directions at interior points. '
+        'compositions; further model objects over the same members-with-groups in the same relative order with the members '
+        'without groups dropped / added / in front / in between / behind (each case starts from empty instance caches, so the '
+        'history of constructions is the one written in the case); Gibbs-Duhem probes by central differences along random simplex directions at interior points. '
         'non-trivial = the case evaluated a group-contribution object (not the ideal fallback); distinct = distinct op lists')
 ASSUMPTIONS = [
     'group tables (counts, Q, R, interaction parameters) are parameters: the real arrays built by '
@@ -46,6 +48,10 @@ ASSUMPTIONS = [
     'the model is written to the REPAIRED behaviour of gamma_UNIFAC / loggammacs_UNIFAC / the xsum==0 branch '
     '(fixes_proposed/C16-1..3.md)',
     'compositions with negative, NaN or non-normalised entries and wrong-length arrays are not generated',
+    'which positions of a chemical tuple have group data is read from the chemicals (Chemical.UNIFAC/.Dortmund/.NIST), never '
+    'from the model object; the object is validated against it (model-object-inconsistent:*), an exception raised by the real '
+    'object is an oracle failure (raises:*), and an object whose arrays are inconsistent is not executed in-process',
+    'each case clears the classes\' `_cached` instance dictionaries first (harness-level reset so that a case is a self-contained history)',
     'GCEOS activity/fugacity classes and IdealGasPoyintingCorrectionFactors are outside the property text and not modelled',
 ]
 TRUSTED = ['Lean 4.33 kernel', 'correspondence harness harness/props/c16.py + Driver/C16.lean',
@@ -164,34 +170,114 @@ def csv(xs):
     return ','.join(fbits(float(v)) for v in xs) if xs else '-'
 
 
-def dump_tables(kind, G, cls):
-    """the `tab` line for a real GroupActivityCoefficients object"""
-    chems = G.chemicals
-    index, chemgroups = ac.get_chemgroups(chems, cls.group_name)
+ARG_SLOTS = ('_interactions', '_group_mask', '_qs', '_rs', '_Qs', '_chemgroups', '_chem_Qfractions', '_index')
+
+
+def grouped_positions(kind, chems):
+    """positions of the chemicals that have group data for this model — from the chemicals themselves,
+    never from the model object"""
+    if kind == 'I': return ()
+    field = CLASSES[kind].group_name
+    return tuple(j for j, c in enumerate(chems) if bool(getattr(c, field)))
+
+
+def validate_object(kind, G, cls, chems, grouped):
+    """Compare the real model object with what the chemical tuple demands.
+    Returns (problems [(tag, text)], usable): `usable` = its arrays are mutually consistent and every
+    index is inside the tuple, so the numba kernels can be run on it in this process."""
+    problems = []
+    n = len(chems)
+    expect_group = kind != 'I' and len(grouped) > 1
+    is_group = isinstance(G, ac.GroupActivityCoefficients)
+    if expect_group != is_group or (not expect_group and type(G) is not eq.IdealActivityCoefficients):
+        problems.append(('type', f'{cls.__name__}{tuple(c.ID for c in chems)} returned a {type(G).__name__} '
+                                 f'({len(grouped)} members have {kind} groups)'))
+    try:
+        got = tuple(G.chemicals)
+        if len(got) != n or any(x is not y for x, y in zip(got, chems)):
+            problems.append(('chemicals', f'the object handed back for {tuple(c.ID for c in chems)} says its chemicals are '
+                                          f'{tuple(getattr(c, "ID", c) for c in got)}'))
+    except Exception as e:
+        problems.append(('attributes', f'.chemicals raised {type(e).__name__}: {e}'))
+    if not is_group:
+        return problems, True
+    usable = True
+    try:
+        arrs = {k: np.asarray(getattr(G, k)) for k in ARG_SLOTS + ('_group_psis',)}
+        idx = arrs['_index']
+        if idx.ndim != 1 or idx.dtype.kind not in 'iu':
+            problems.append(('index', f'_index is {idx!r}')); usable = False
+        else:
+            if tuple(int(j) for j in idx) != tuple(grouped):
+                problems.append(('index', f'the object for {tuple(c.ID for c in chems)} indexes positions {idx.tolist()} as the '
+                                          f'members with {kind} groups; from the chemicals\' group data they are {list(grouped)}'))
+            if len(idx) and (idx.min() < 0 or idx.max() >= n): usable = False
+        nC = len(idx) if idx.ndim == 1 else -1
+        cgs = arrs['_chemgroups']
+        nG = cgs.shape[1] if cgs.ndim == 2 else -1
+        depth_ok = arrs['_interactions'].shape in ((nG, nG), (nG, nG, 3))
+        shapes_ok = (cgs.ndim == 2 and cgs.shape[0] == nC and arrs['_Qs'].shape == (nG,) and arrs['_qs'].shape == (nC,)
+                     and arrs['_rs'].shape == (nC,) and arrs['_chem_Qfractions'].shape == (nC, nG)
+                     and arrs['_group_mask'].shape == (nG, nG) and arrs['_group_psis'].shape == (nG, nG) and depth_ok)
+        if not shapes_ok:
+            problems.append(('tables', 'the arrays of Gamma.args have mutually inconsistent shapes: '
+                             + ', '.join(f'{k}{arrs[k].shape}' for k in arrs)))
+            usable = False
+        elif nC != len(grouped):
+            if not any(t == 'index' for t, _ in problems):
+                problems.append(('tables', f'{nC} rows of group counts for {len(grouped)} members with groups'))
+    except Exception as e:
+        problems.append(('attributes', f'reading the arrays of the object raised {type(e).__name__}: {e}'))
+        usable = False
+    return problems, usable
+
+
+def subgroup_columns(G, cls, chems, grouped):
+    """the subgroup id of every column of the real `_chemgroups` (the column order is an implementation
+    detail: found by matching counts and Q, not assumed).  None if the columns do not describe these chemicals."""
+    field = cls.group_name
+    counts = [dict(getattr(chems[j], field)) for j in grouped]
     all_groups = set()
-    for g in chemgroups: all_groups.update(g)
-    sub = [cls.all_subgroups[i] for i in all_groups]
-    Qs = np.array([s.Q for s in sub], float)
-    Rs = np.array([s.R for s in sub], float)
-    if Qs.shape != G._Qs.shape or not (Qs == G._Qs).all():
-        raise RuntimeError('C16 adapter: cannot reconstruct the subgroup order of the model object')
+    for c in counts: all_groups.update(c)
+    cgs, Qs = np.asarray(G._chemgroups, float), np.asarray(G._Qs, float)
+    if cgs.shape != (len(grouped), len(all_groups)): return None
+    left, cols = set(all_groups), []
+    for k in range(cgs.shape[1]):
+        hit = [g for g in sorted(left) if cls.all_subgroups[g].Q == Qs[k]
+               and all(float(counts[i].get(g, 0)) == cgs[i, k] for i in range(len(counts)))]
+        if not hit: return None
+        cols.append(hit[0]); left.discard(hit[0])
+    return cols
+
+
+def dump_tables(kind, G, cls, chems, grouped):
+    """the `tab` line for a real GroupActivityCoefficients object; the index handed to the model is the
+    one the chemicals' group data demand.  None if the object's tables do not describe these chemicals."""
+    cols = subgroup_columns(G, cls, chems, grouped)
+    if cols is None: return None
+    Rs = np.array([cls.all_subgroups[g].R for g in cols], float)
     nC, nG = G._chemgroups.shape
     mk = 'U' if kind == 'U' else 'M'
     inter = np.asarray(G._interactions, float)
-    return ' '.join(['tab', mk, str(nC), str(nG), ','.join(str(int(i)) for i in G._index),
+    return ' '.join(['tab', mk, str(nC), str(nG), ','.join(str(int(i)) for i in grouped),
                      csv(G._chemgroups.ravel()), csv(G._Qs), csv(Rs), csv(G._qs), csv(G._rs),
                      csv(G._chem_Qfractions.ravel()), ','.join('1' if b else '0' for b in G._group_mask.ravel()),
                      csv(inter.ravel())])
 
 
 def snapshot_args(G):
-    if not hasattr(G, '_index'): return None
-    return [np.array(a, copy=True) for a in (G._interactions, G._group_mask, G._qs, G._rs, G._Qs, G._chemgroups,
-                                             G._chem_Qfractions, G._index)]
+    try:
+        return [np.array(getattr(G, k), copy=True) for k in ARG_SLOTS]
+    except Exception:
+        return None
 
 
 def args_changed(G, snap):
-    now = (G._interactions, G._group_mask, G._qs, G._rs, G._Qs, G._chemgroups, G._chem_Qfractions, G._index)
+    if snap is None: return False
+    try:
+        now = [np.asarray(getattr(G, k)) for k in ARG_SLOTS]
+    except Exception:
+        return True
     return any(a.shape != b.shape or not np.array_equal(a, b) for a, b in zip(now, snap))
 
 
@@ -204,6 +290,9 @@ class Session:
     """real objects of one case + the oracle"""
     def __init__(self):
         self.G = None; self.kind = None; self.names = (); self.snap = None
+        self.grouped = ()         # positions with group data, from the chemicals (never from the object)
+        self.is_group = False     # the object is a group-contribution object
+        self.usable = True        # its arrays are consistent enough to run the kernels in this process
         self.arrays = []          # caller's ndarrays
         self.byname = {}          # (kind, frozenset((name, x)), T) -> {name: gamma}
         self.failures = []
@@ -218,26 +307,43 @@ class Session:
     def emit(self, line, out):
         self.model_in.append(line); self.outs.append(out)
 
+    def guarded(self, i, label, what, fn):
+        """run a call into the real code; an exception is a finding about the real object, not a harness crash"""
+        try:
+            return True, fn()
+        except Exception as e:
+            self.fail(f'raises:{label}:{type(e).__name__}',
+                      f'{type(self.G).__name__}{self.names}: {what} raised {type(e).__name__}: {str(e)[:200]}', i)
+            return False, None
+
     # -- one evaluation through the real object ---------------------------------
     def evaluate(self, i, form, arg, T, line, record=True):
         """form: 'call' (object form) or 'f'; arg: ndarray (by reference) or list.  Returns gamma or None."""
         G, kind = self.G, self.kind
-        is_group = hasattr(G, '_index')
+        is_group = self.is_group
         before = np.array(arg, float, copy=True)
         label = f'{kind}{"" if is_group else "(ideal)"}'
-        if is_group and float(before[G._index].sum()) == 0.0:
-            self.tags.add('xsum0')
-            if not xsum0_safe('U' if kind == 'U' else 'M'):
-                self.fail(f'crash-xsum0:{label}',
-                          f'{type(G).__name__}{self.names}: a composition that is zero on every chemical with groups '
-                          f'(x={before.tolist()}) crashes the interpreter: the scatter loop of the kernel reads `gamma_sub`, '
-                          f'which is only assigned when xsum != 0 (verified in a subprocess; not executed here)', i)
-                if record: self.emit(line, 'crash')
-                return None
-        if form == 'call':
-            res = G(arg, T)
-        else:
-            res = G.f(arg, T, *G.args)
+        if not self.usable or len(before) != len(self.names):
+            # the object cannot be run safely (reported when it was made): nothing is executed, nothing is compared
+            return None
+        if is_group:
+            sums = [float(before[list(self.grouped)].sum())] if self.grouped else []
+            try: sums.append(float(before[np.asarray(G._index)].sum()))
+            except Exception: pass
+            if any(v == 0.0 for v in sums):
+                self.tags.add('xsum0')
+                if not xsum0_safe('U' if kind == 'U' else 'M'):
+                    self.fail(f'crash-xsum0:{label}',
+                              f'{type(G).__name__}{self.names}: a composition that is zero on every chemical with groups '
+                              f'(x={before.tolist()}) crashes the interpreter: the scatter loop of the kernel reads `gamma_sub`, '
+                              f'which is only assigned when xsum != 0 (verified in a subprocess; not executed here)', i)
+                    if record: self.emit(line, 'crash')
+                    return None
+        ok, res = self.guarded(i, label, 'Gamma(x, T)' if form == 'call' else 'Gamma.f(x, T, *Gamma.args)',
+                               (lambda: G(arg, T)) if form == 'call' else (lambda: G.f(arg, T, *G.args)))
+        if not ok:
+            if record: self.emit(line, 'raised')
+            return None
         after = np.array(arg, float, copy=True)
         # ---- oracle on this evaluation
         if not same_bits(before, after):
@@ -245,17 +351,25 @@ class Session:
                       f'{type(G).__name__}{self.names}: the caller\'s composition was {before.tolist()} before the call and '
                       f'{after.tolist()} after it', i)
         scalar = not isinstance(res, np.ndarray)
-        g = np.full(len(before), float(res)) if scalar else np.array(res, float, copy=True)
+        try:
+            g = np.full(len(before), float(res)) if scalar else np.array(res, float, copy=True).ravel()
+        except Exception:
+            g = np.array([])
         fresh = scalar or not (res is arg or (isinstance(arg, np.ndarray) and np.shares_memory(res, arg)))
         if not fresh:
             self.fail(f'result-aliases-x:{label}', 'the returned array shares memory with the caller\'s composition', i)
-        if len(g) != len(before) or not np.all(np.isfinite(g)) or not np.all(g > 0):
+        if len(g) != len(before):
+            self.fail(f'bad-shape:{label}', f'{type(G).__name__}{self.names} x={before.tolist()}: the result is {res!r}', i)
+            if record: self.emit(line, f'g={csv(g)} fresh={1 if fresh else 0} x={csv(after)}')
+            return None
+        if not np.all(np.isfinite(g)) or not np.all(g > 0):
             self.fail(f'nonfinite:{label}', f'{type(G).__name__}{self.names} x={before.tolist()} T={T}: gamma={g.tolist()}', i)
-        idx = set(int(j) for j in G._index) if is_group else set()
+        idx = set(self.grouped) if (kind != 'I' and len(self.grouped) > 1) else set()
         for j in range(len(g)):
             if j not in idx and g[j] != 1.0:
                 self.fail(f'nogroup-not-one:{label}',
-                          f'{self.names[j]} has no {kind} groups (or the model is ideal) but gamma={g[j]!r} at x={before.tolist()}', i)
+                          f'{type(G).__name__}{self.names}: {self.names[j]} has no {kind} groups (or fewer than two members have, '
+                          f'or the model is ideal) but gamma={g[j]!r} at x={before.tolist()}', i)
         if is_group:
             self.group_evals += 1
             for j in idx:
@@ -271,22 +385,24 @@ class Session:
                         self.fail(f'pure-limit-trend:{label}',
                                   f'{type(G).__name__}{self.names}: x[{self.names[j]}]={xj!r} but gamma={g[j]!r}', i)
             # the functional form and the object form are the same function
-            other = G.f(np.array(before), T, *G.args) if form == 'call' else G(np.array(before), T)
-            if not same_bits(other, g):
+            ok, other = self.guarded(i, label, 'the other calling form',
+                                     (lambda: G.f(np.array(before), T, *G.args)) if form == 'call' else (lambda: G(np.array(before), T)))
+            if ok and not same_bits(other, g):
                 self.fail(f'f-form:{label}',
                           f'{type(G).__name__}{self.names} x={before.tolist()} T={T}: Gamma(x,T)={g.tolist() if form == "call" else np.asarray(other).tolist()} '
                           f'but Gamma.f(x,T,*args)={np.asarray(other).tolist() if form == "call" else g.tolist()}', i)
             # same input, same answer (no hidden state), and the object's tables are not written
-            again = G(before.tolist(), T)
-            if not same_bits(again, g):
+            ok, again = self.guarded(i, label, 'a repeated Gamma(x, T)', lambda: G(before.tolist(), T))
+            if ok and not same_bits(again, g):
                 self.fail(f'history:{label}',
                           f'{type(G).__name__}{self.names}: the same (x, T) evaluated again gives {np.asarray(again).tolist()} after {g.tolist()}', i)
             if args_changed(G, self.snap):
                 self.fail(f'args-modified:{label}', f'{type(G).__name__}{self.names}: an array of Gamma.args (other than group_psis) was written by a call', i)
                 self.snap = snapshot_args(G)
         else:
-            other = G.f(np.array(before), T, *G.args) if form == 'call' else G(np.array(before), T)
-            if not np.all(np.asarray(other, float) == g):
+            ok, other = self.guarded(i, label, 'the other calling form',
+                                     (lambda: G.f(np.array(before), T, *G.args)) if form == 'call' else (lambda: G(np.array(before), T)))
+            if ok and not np.all(np.asarray(other, float) == g):
                 self.fail(f'f-form:{label}', f'ideal object: f gives {other!r}, call gives {g.tolist()}', i)
         # position independence: same named composition, same named coefficients
         key = (kind, frozenset(zip(self.names, before.tolist())), T)
@@ -302,18 +418,20 @@ class Session:
                                   f'{type(G).__name__}: gamma[{n}]={v!r} with the chemicals ordered {self.names} but {old[0][n]!r} '
                                   f'ordered {old[1]} (same composition by name, T={T})', i)
         if record:
-            shown = res if not scalar else [float(res)]
+            shown = g if not scalar else [float(res)]
             self.emit(line, f'g={csv(shown)} fresh={1 if fresh else 0} x={csv(after)}')
         return g
 
     def eval_ac(self, i, xs, T, line):
         """`Gamma.activity_coefficients(x, T)` (public method of the group-contribution classes)"""
         G = self.G
-        if not hasattr(G, '_index') or len(xs) != len(G._index): return None
+        if not (self.is_group and self.usable) or len(xs) != len(self.grouped): return None
         x = np.array(xs, float); before = x.copy()
-        res = G.activity_coefficients(x, T)
-        g = np.array(res, float, copy=True)
         label = f'{self.kind}/activity_coefficients'
+        ok, res = self.guarded(i, label, 'Gamma.activity_coefficients(x, T)', lambda: G.activity_coefficients(x, T))
+        if not ok:
+            self.emit(line, 'raised'); return None
+        g = np.array(res, float, copy=True).ravel()
         if not same_bits(before, x):
             self.fail(f'x-modified:{label}', f'{type(G).__name__}{self.names}.activity_coefficients changed x from {before.tolist()} to {x.tolist()}', i)
         if len(g) != len(before) or not np.all(np.isfinite(g)) or not np.all(g > 0):
@@ -337,20 +455,34 @@ class Session:
             kind, names = t[1], tuple(t[2].split(','))
             chems = tuple(POOL[n] for n in names)
             cls = CLASSES[kind]
+            self.G, self.kind, self.names = None, kind, names
+            self.grouped = grouped_positions(kind, chems)
+            self.is_group, self.usable, self.snap = False, False, None
             with warnings.catch_warnings():
                 warnings.simplefilter('ignore')
-                G = cls(chems)
-            self.G, self.kind, self.names = G, kind, names
-            self.snap = snapshot_args(G)
-            self.tags.add('obj:' + kind + ('' if hasattr(G, '_index') else '->ideal'))
-            if hasattr(G, '_index'):
-                self.emit(dump_tables(kind, G, cls), 'ok wf=1')
-                nog = len(names) - len(G._index)
-                self.tags.add(f'nogroup-members:{nog}')
+                ok, G = self.guarded(i, kind, f'{cls.__name__}{names}', lambda: cls(chems))
+            if not ok: return
+            self.G = G
+            problems, self.usable = validate_object(kind, G, cls, chems, self.grouped)
+            for tag, text in problems:
+                self.fail(f'model-object-inconsistent:{tag}',
+                          f'{cls.__name__}{names} (after the model constructions earlier in this case): {text}', i)
+            self.is_group = isinstance(G, ac.GroupActivityCoefficients)
+            self.tags.add('obj:' + kind + ('' if self.is_group else '->ideal'))
+            if not self.usable: return
+            if self.is_group:
+                line = dump_tables(kind, G, cls, chems, self.grouped)
+                if line is None:
+                    self.fail('model-object-inconsistent:tables',
+                              f'{cls.__name__}{names}: the group-count / Q columns of the object do not describe the group data of '
+                              f'these chemicals', i)
+                    self.usable = False
+                    return
+                self.snap = snapshot_args(G)
+                self.emit(line, 'ok wf=1')
+                self.tags.add(f'nogroup-members:{len(names) - len(self.grouped)}')
                 if any(q == 0 for q in G._Qs): self.tags.add('group-with-Q=0')
             else:
-                if type(G) is not eq.IdealActivityCoefficients:
-                    self.fail('obj-type', f'{cls.__name__}{names} returned a {type(G).__name__}', i)
                 self.emit('tab I', 'ok wf=1')
         elif k == 'new':
             a = np.array(fl(t[1]), float)
@@ -374,7 +506,7 @@ class Session:
                 dl = (np.log(gp) - np.log(gm)) / (2 * h)
                 r = float((x * dl).sum()); s = float((x * np.abs(dl)).sum())
                 if not abs(r) <= 2e-6 * (1.0 + s):
-                    label = f'{self.kind}{"" if hasattr(self.G, "_index") else "(ideal)"}'
+                    label = f'{self.kind}{"" if self.is_group else "(ideal)"}'
                     self.fail(f'gibbs-duhem:{label}',
                               f'{type(self.G).__name__}{self.names} x={x.tolist()} T={T} direction={d.tolist()} h={h}: '
                               f'sum x_i dln(gamma_i)/ds = {r:.3e} (scale {s:.3e}); central differences', i)
@@ -423,6 +555,10 @@ class Session:
 
 def run_impl(case: Case) -> ImplResult:
     setup()
+    # a case is a self-contained history of model constructions: start from empty instance caches
+    for c in set(CLASSES.values()):
+        d = getattr(c, '_cached', None)
+        if isinstance(d, dict): d.clear()
     S = Session()
     for i, op in enumerate(case.ops):
         if S.G is None and op.split(' ')[0] in ('new', 'call', 'f', 'gd', 'ac', 'gdac'):
@@ -524,13 +660,41 @@ def pick_names(rng):
     return names
 
 
+def variant_ops(rng, kind, gnames, base, drop):
+    """one more model object over the same members-with-groups, in the same relative order, with the members
+    without groups at other positions (or dropped); evaluated at the same composition by name"""
+    xs, T, extra = base
+    tup = list(gnames)
+    if not drop:
+        for m in extra:
+            tup.insert(rng.randrange(len(tup) + 1), m)
+    x = [xs[m] for m in tup]
+    tot = sum(x)
+    if drop: x = [v / tot for v in x]
+    i0 = tup.index(rng.choice(gnames))
+    return [f'obj {kind} {",".join(tup)}', f'call seq {csv(x)} {fbits(T)}',
+            f'call seq {csv([1.0 if j == i0 else 0.0 for j in range(len(tup))])} {fbits(T)}']
+
+
 def gen_case(rng, tier, kind=None, names=None):
     kind = kind or rng.choice('UUUDDDNNI')
     names = names or pick_names(rng)
     n = len(names)
-    ops = [f'obj {kind} {",".join(names)}']
     nid = 0
     T = rand_T(rng)
+    ops = []
+    # history of model constructions: the same members-with-groups (same relative order) with members without
+    # groups dropped, added, in front, in between, behind -- the instance cache of the classes is keyed on the tuple
+    gnames = [m for m in names if m in GROUPED]
+    base = None
+    if kind != 'I' and len(gnames) >= 2:
+        extra = [m for m in names if m in NOGROUP] or [rng.choice(NOGROUP)]
+        union = gnames + extra
+        w = simplex_point(rng, len(union), 'uniform')
+        base = (dict(zip(union, w)), rand_T(rng), extra)
+        if rng.random() < 0.5:
+            ops += variant_ops(rng, kind, gnames, base, drop=True)
+    ops.append(f'obj {kind} {",".join(names)}')
     # every vertex, as ndarray and as list
     verts = list(range(n))
     if tier == 'quick' and n > 3: verts = rng.sample(verts, 3)
@@ -580,6 +744,9 @@ def gen_case(rng, tier, kind=None, names=None):
                 ops.append(f'call seq {csv(xp)} {fbits(Tx)}')
             else:
                 ops.append(f'new {csv(xp)}'); ops.append(f'call nd {nid} {fbits(Tx)}'); nid += 1
+    if base is not None:
+        for _ in range(2 if tier == 'quick' else rng.randrange(2, 5)):
+            ops += variant_ops(rng, kind, gnames, base, drop=(rng.random() < 0.25))
     if rng.random() < 0.15:
         ops.append(f'phi {csv(simplex_point(rng, rng.randrange(1, 5), "uniform"))} {fbits(rand_T(rng))} {fbits(rng.choice([101325.0, 5e5, 1e4]))}')
         ops.append(f'pcf {fbits(rand_T(rng))} {fbits(101325.0)}')
@@ -610,6 +777,17 @@ def corpus():
                         f'gd {csv([0.25, 0.5, 0.25])} {T} {csv([1.0, -0.5, -0.5])} {fbits(1e-6)}']))
         # only one member with groups: the class hands back the ideal model
         cs.append(Case([f'obj {k} Water,O2,N2', f'call seq {csv([0.25, 0.5, 0.25])} {T}', f'new {csv([0.25, 0.5, 0.25])}', f'f 0 {T}']))
+    x3 = {'Water': 0.3, 'Ethanol': 0.5, 'O2': 0.2}
+    for k in 'UDN':
+        # histories of constructions over the same two members with groups (the instance cache of the classes)
+        for first, rest in ((('Water', 'Ethanol'), [('Water', 'O2', 'Ethanol'), ('O2', 'Water', 'Ethanol'), ('Water', 'Ethanol', 'O2')]),
+                            (('O2', 'Water', 'Ethanol'), [('Water', 'Ethanol'), ('Water', 'Ethanol', 'O2'), ('Water', 'O2', 'Ethanol')])):
+            ops = []
+            for tup in [first] + rest:
+                x = [x3[m] for m in tup]
+                if len(tup) == 2: x = [v / 0.8 for v in x]
+                ops += [f'obj {k} {",".join(tup)}', f'call seq {csv(x)} {fbits(330.0)}']
+            cs.append(Case(ops))
     cs.append(Case(['obj I Water,Ethanol', f'call seq {half},{half} {T}', f'new {half},{half}', f'call nd 0 {T}', f'f 0 {T}',
                     f'phi {half},{half} {T} {fbits(101325.0)}', f'pcf {T} {fbits(101325.0)}', 'idealf']))
     return cs
